@@ -286,17 +286,17 @@ def ob_merge(ctx, res):
     """C06-A3: the per-chromosome merge, decided by running the merge block on concrete summaries for every combination of
     (running summary has covered bases or not) x (chromosome has covered bases or not) x (which of the two has the smaller minimum / larger maximum)"""
     for name in ("write_vals", "write_vals_no_zoom"):
-        fn = ctx.ast.fn(W, name)
+        fn = ctx.ast.fn(W, name, inline=True, keep=("write_data", "future_channel", "write_chroms_with_zooms", "write_chroms_without_zooms"))
         ms = [m for m in walk_no_nested_fn(fn.body) if m.k == "match" and len(m["arms"]) == 2 and {up(a["pat"]).split("(")[0] for a in m["arms"]} == {"None", "Some"}
               and any("bases_covered" in up(a["body"]) and "+=" in up(a["body"]) for a in m["arms"])]
         if len(ms) != 1:
-            res.fail("merge/%s/sites" % name, fn, "expected one per-chromosome merge (`match &mut summary { None => .., Some(..) => .. }`), found %d" % len(ms))
+            res.undecided("merge/%s/sites" % name, fn, "expected one per-chromosome merge (`match &mut summary { None => .., Some(..) => .. }`), found %d" % len(ms))
             continue
         m = ms[0]
         na = [a for a in m["arms"] if up(a["pat"]) == "None"][0]
         sa = [a for a in m["arms"] if up(a["pat"]).startswith("Some(")][0]
         base = up(sa["pat"])[5:-1]
-        mm = re.fullmatch(r"(\w+) = Some\((\w+)\)", up(strip(na["body"])))
+        mm = re.fullmatch(r"\*?(\w+) = Some\((\w+)\)", up(strip(na["body"])))
         if not mm:
             res.fail("merge/%s/first" % name, na, "the first chromosome's summary must be taken as is (None => summary = Some(chrom_summary))")
             continue
